@@ -342,6 +342,8 @@ impl<const N: usize> TracingEvaluator for VmIntervalEval<N> {
         let mut v = SlotArray(&mut self.0.slots);
         let mut choices = self.0.choices.as_mut_slice().iter_mut();
         for op in tape.iter_asm() {
+            #[cfg(fidget_verif)]
+            crate::verif::sched_point();
             match op {
                 RegOp::Output(arg, i) => {
                     self.0.out[i as usize] = v[arg];
@@ -560,6 +562,8 @@ impl<const N: usize> TracingEvaluator for VmPointEval<N> {
         let mut simplify = false;
         let mut v = SlotArray(&mut self.0.slots);
         for op in tape.iter_asm() {
+            #[cfg(fidget_verif)]
+            crate::verif::sched_point();
             match op {
                 RegOp::Output(arg, i) => {
                     self.0.out[i as usize] = v[arg];
@@ -810,6 +814,8 @@ impl<const N: usize> BulkEvaluator for VmFloatSliceEval<N> {
 
         let mut v = SlotArray(&mut self.0.slots);
         for op in tape.iter_asm() {
+            #[cfg(fidget_verif)]
+            crate::verif::sched_point();
             match op {
                 RegOp::Output(arg, i) => {
                     self.0.out[i as usize][0..size]
@@ -1106,6 +1112,8 @@ impl<const N: usize> BulkEvaluator for VmGradSliceEval<N> {
 
         let mut v = SlotArray(&mut self.0.slots);
         for op in tape.iter_asm() {
+            #[cfg(fidget_verif)]
+            crate::verif::sched_point();
             match op {
                 RegOp::Output(arg, i) => {
                     self.0.out[i as usize][0..size]
